@@ -5,7 +5,8 @@ ARRAY_LENS = [0, 1, 2, 3, 4, 5, 7, 8, 16, 17, 32, 33, 64, 65]
 INT_PRIMS = {"u8": (0, 8), "i8": (1, 8), "u16": (0, 16), "i16": (1, 16), "u32": (0, 32), "i32": (1, 32),
              "u64": (0, 64), "i64": (1, 64), "u128": (0, 128), "i128": (1, 128)}
 CHRONO_PRIMS = ["weekday", "month", "fixedoffset", "tz", "dt_utc", "ndate", "ntime", "ndt", "dt_local", "dt_fixed", "dt_tz"]
-PRIMS = list(INT_PRIMS) + ["f32", "f64", "bool", "unit", "char", "str", "dstr", "dur", "bytes", "uuid", "bigint"]
+PRIMS = (list(INT_PRIMS) + ["f32", "f64", "bool", "unit", "char", "str", "dstr", "dur", "bytes", "uuid", "bigint"]
+         + CHRONO_PRIMS + ["varu32", "vari32"])
 MIN_YEAR, MAX_YEAR = -262143, 262142
 MIN_TS, MAX_TS = -8334601228800, 8210266876799
 _TZ = []
@@ -249,6 +250,10 @@ def int_boundaries(signed, bits):
 def gen_prim_value(rng, p, boundary=0.5):
     if p in CHRONO_PRIMS:
         return gen_chrono_value(rng, p)
+    if p == "varu32":
+        return gen_prim_value(rng, "u32", boundary)
+    if p == "vari32":
+        return gen_prim_value(rng, "i32", boundary)
     if p in INT_PRIMS:
         signed, bits = INT_PRIMS[p]
         if rng.random() < boundary:
